@@ -19,7 +19,7 @@ The functions mirror the Go code one to one:
 Persisted state is a set of finite maps written as functions (`Nat → Option _`):
 `h2h` height→hash, `tds` hash→total difficulty, `stored` hash→block (header/body tables),
 `last` = blockLastHeight, and the sequence log `seqTab` seq→(isAdd, hash), `hashSeq`
-hash→seq, `lastSeq` (−1: none).  Go errors are `Res.err`; nil dereferences are `Err.panic`.
+hash→seq, `lastSeq` (−1: none), the transaction index `txIdx` (tx hash→height).  Go errors are `Res.err`; nil dereferences are `Err.panic`.
 
 Not modelled (assumptions of every theorem and of the tie): block execution/validity (all
 delivered blocks are valid, execution succeeds), the index cache limit (102400 nodes), the
@@ -34,6 +34,7 @@ structure Block where
   parent : Nat
   height : Nat
   diff : Nat
+  txs : List Nat := []   -- transaction hashes carried by the block
 deriving DecidableEq, Repr, Inhabited
 
 inductive Err
@@ -66,6 +67,7 @@ structure State where
   seqTab : Map (Bool × Nat)  -- sequence -> (isAdd, hash)
   hashSeq : Map Nat          -- hash -> sequence (add records only)
   lastSeq : Int              -- last sequence, -1 when none
+  txIdx : Map Nat            -- tx hash -> height of its main-chain block (AddTxs / DelTxs)
 
 def lookup (idx : List Block) (id : Nat) : Option Block := idx.find? (fun b => b.id == id)
 
@@ -83,6 +85,12 @@ def saveSeq (s : State) (isAdd : Bool) (b : Block) : Except Err State :=
                hashSeq := if isAdd then upd s.hashSeq b.id (some n.toNat) else s.hashSeq,
                lastSeq := n }
 
+/-- `AddTxs`: the transaction index entries of a connected block. -/
+def addTxs (m : Map Nat) (b : Block) : Map Nat := b.txs.foldl (fun m t => upd m t (some b.height)) m
+
+/-- `DelTxs`: the entries are deleted when the block is disconnected. -/
+def delTxs (m : Map Nat) (b : Block) : Map Nat := b.txs.foldl (fun m t => upd m t none) m
+
 /-- `connectBlock` for a valid block (execution succeeds). -/
 def connectBlock (s : State) (b : Block) : Except Err State :=
   match s.best with
@@ -99,7 +107,8 @@ def connectBlock (s : State) (b : Block) : Except Err State :=
                       h2h := upd s1.h2h b.height (some b.id),
                       last := b.height,
                       tds := upd s1.tds b.id (some (b.diff + ptd)),
-                      best := b :: s1.best }
+                      best := b :: s1.best,
+                      txIdx := addTxs s1.txIdx b }
 
 /-- `disconnectBlock`. -/
 def disconnectBlock (s : State) (b : Block) : Except Err State :=
@@ -112,7 +121,8 @@ def disconnectBlock (s : State) (b : Block) : Except Err State :=
     | .ok s1 =>
       .ok { s1 with h2h := upd s1.h2h b.height none,
                     last := (b.height : Int) - 1,
-                    best := rest }
+                    best := rest,
+                    txIdx := delTxs s1.txIdx b }
 
 /-- run `f` over the list; stop at the first error keeping the state reached so far. -/
 def runSteps (f : State → Block → Except Err State) : State → List Block → State × Option Err
@@ -275,7 +285,8 @@ def init (fin margin : Nat) (recSeq : Bool) (g : Block) : State :=
     last := g.height,
     seqTab := if recSeq then upd (fun _ => none) 0 (some (true, g.id)) else fun _ => none,
     hashSeq := if recSeq then upd (fun _ => none) g.id (some 0) else fun _ => none,
-    lastSeq := if recSeq then 0 else -1 }
+    lastSeq := if recSeq then 0 else -1,
+    txIdx := addTxs (fun _ => none) g }
 
 def deliverAll (s : State) (bs : List Block) : State := bs.foldl (fun s b => (processBlock s b).1) s
 
